@@ -136,7 +136,7 @@ def jobs(prop, tier):
         pn = int(prop[2])
         nn = 1
         # (requests waiting, device arbitration state 0 idle / 1 armed / 2 address written) x handler state group
-        combos = ((0, 0), (1, 0), (1, 1), (1, 2), (2, 0), (2, 1), (2, 2))
+        combos = ((0, 0), (1, 0), (1, 1), (1, 2), (2, 0), (2, 1), (2, 2)) if prop == 'C03' else ((1, 0), (1, 1), (1, 2), (2, 1), (2, 2))   # bookkeeping needs a request
         groups = ((0, 'nosignal'), (1, 'skip'), (2, 'ready'), (9, 'recv'))
         # quick tier: the combinations in which arming, the address write, the echo check and the loss of signal happen
         quick = {'C03': ('q1_arm0_skip', 'q1_arm0_ready', 'q1_arm1_skip', 'q1_arm1_skip_gen', 'q1_arm1_recv', 'q1_arm2_ready'),
